@@ -424,7 +424,7 @@ def _prune_run(tier, seed):
     n = 16 if tier == "quick" else 400
     res.rule = "composited colour at grid points of the document before vs after SVG.remove_unpainted_shapes() and SVG.remove_empty_subpaths(), each called directly on the parsed source"
     res.bound = f"{n} generated cascade / structural documents (seed {seed}) + corpus + pinned documents"
-    docs = [(f"pinned:{k}", corpus.PINNED[k]) for k in ("group_style_hides_but_child_paints", "evenodd_repeated_subpath")]
+    docs = [(f"pinned:{k}", corpus.PINNED[k]) for k in ("group_style_hides_but_child_paints", "evenodd_repeated_subpath", "paint_set_two_levels_up")]
     docs += [(f"corpus:{k}", v) for k, v in corpus.DOCS.items()]
     for fam in ("cascade", "structural"):
         docs += list(gen.documents(fam, seed, n // 2))
